@@ -209,6 +209,26 @@ def _(m):
     set_object_fields(m.DC, [ObjectField("a_b", str, required=False, default="dflt")])
 
 
+@op("set_object_fields:DC+rec")
+def _(m):
+    # the class becomes recursive after its first use
+    from typing import Optional
+
+    from apischema.objects import ObjectField, set_object_fields
+
+    set_object_fields(m.DC, [ObjectField("a_b", int, required=False, default=0), ObjectField("c", Optional[m.DC], required=False, default=None)])
+
+
+@op("deserializer:K<-Holder")
+def _(m):
+    # K deserialized from the shape of Holder, which holds a K: a cycle through a conversion
+    def k_from_holder(h):
+        return h.k
+
+    k_from_holder.__annotations__ = {"h": m.Holder, "return": m.K}
+    apischema.deserializer(k_from_holder)
+
+
 @op("set_object_fields:DC=None")
 def _(m):
     from apischema.objects import set_object_fields
@@ -287,6 +307,7 @@ def observations(m) -> List[Tuple[str, Callable[[], Any]]]:
 
     for i, d in enumerate([{"a_b": 1, "c": "x"}, {"aB": 2}, {"A_B": 3, "C": None}, {"a_b": "4"}, {"c": "only"}, {"a_b": 1, "zz": 0}, {}]):
         add(f"D(DC,{d})", lambda d=d: D(m.DC, d))
+    add("D(DC,nested)", lambda: D(m.DC, {"a_b": 1, "c": {"a_b": 2, "c": None}}))
     add("S(DC)", lambda: S(m.DC, m.DC(1, None)))
     add("S(DC())", lambda: S(m.DC, m.DC()))
     add("S(untyped DC)", lambda: S(m.DC(2, "y")))
